@@ -46,6 +46,8 @@ type Exec struct {
 	pkgs         map[string]*ssa.Package
 	contracts    map[string]*Contract
 	topArgs      []Value
+	probe        *scanProbe
+	scanSeq      int
 	objs         []objInfo
 	nextCell     int
 	globalCells  map[*ssa.Global]int
@@ -140,6 +142,9 @@ func isRepoFn(fn *ssa.Function) bool {
 // ---- obligations
 
 func (ex *Exec) oblige(st *State, kind, name string, props []string, goal *Term, note string) {
+	if ex.probe != nil {
+		return // probing a loop iteration: its obligations are generated when the iteration is executed for real
+	}
 	if goal == TTrue {
 		// still counted as discharged syntactically
 		ex.obls = append(ex.obls, &Obligation{Name: name, Kind: kind, Props: propSet(props), Fn: fnName(ex.top), Goal: goal, Note: note,
@@ -210,6 +215,21 @@ func (ex *Exec) runFunc(st *State, fn *ssa.Function, args []Value, k cont) {
 }
 
 func (ex *Exec) runBlock(st *State, b *ssa.BasicBlock, prev *ssa.BasicBlock, from int, k cont) {
+	if p := ex.probe; p != nil && from == 0 && prev != nil {
+		// probing one iteration of a scan loop: record how it ends
+		if b == p.h && p.body[prev] {
+			p.cont = append(p.cont, And(st.pc[p.base:]...))
+			return
+		}
+		if !p.body[b] {
+			p.exits++
+			return
+		}
+		if isLoopHeader(b) && b != p.h {
+			p.bad = true // nested loop
+			return
+		}
+	}
 	if from == 0 && prev != nil {
 		// loop handling happens at block entry
 		if ex.enterLoopHeader(st, b, prev, k) {
@@ -313,7 +333,11 @@ func (ex *Exec) runBlock(st *State, b *ssa.BasicBlock, prev *ssa.BasicBlock, fro
 			}
 			mv := st.cells[m.Cell].(VMapVal)
 			key := ex.val(st, x.Key).(VStr).T
-			st.cells[m.Cell] = VMapVal{Set: Store(mv.Set, key, TTrue)}
+			stored := TTrue
+			if bv, isBool := ex.val(st, x.Value).(VBool); isBool {
+				stored = bv.T // map[string]bool: Set[k] is "m[k] yields true"
+			}
+			st.cells[m.Cell] = VMapVal{Set: Store(mv.Set, key, stored)}
 		case *ssa.DebugRef:
 		case ssa.Value:
 			fr.Regs[x] = ex.evalInstr(st, x)
@@ -573,7 +597,23 @@ func (ex *Exec) evalInstr(st *State, in ssa.Value) Value {
 		case VMap:
 			key := ex.val(st, x.Index).(VStr).T
 			mv := st.cells[m.Cell].(VMapVal)
-			elem := ex.zero(st, x.X.Type().Underlying().(*types.Map).Elem(), 0)
+			et := x.X.Type().Underlying().(*types.Map).Elem()
+			if classify(et) == kBool {
+				// map[string]bool used as a set: Set[k] is "m[k] yields true"
+				val := Select(mv.Set, key)
+				if x.CommaOk {
+					okT := Fresh("map.ok", SBool)
+					st.assume(Implies(val, okT))
+					return VTuple{VBool{val}, VBool{okT}}
+				}
+				return VBool{val}
+			}
+			var elem Value
+			if s, isStruct := et.Underlying().(*types.Struct); isStruct && s.NumFields() == 0 {
+				elem = ex.zero(st, et, 0)
+			} else {
+				elem = ex.havoc(st, et, "mapvalue") // stored values are not modelled
+			}
 			if x.CommaOk {
 				return VTuple{elem, VBool{Select(mv.Set, key)}}
 			}
